@@ -75,6 +75,11 @@ def make_world(spec):
     w.Mfull = (Mbc + w.M - pf.diffusionTerm(w.D)).tocsr()
     w.rfull = rbc + w.v
     w.rhs_expl = U.generic_array(tuple(k + 2 for k in dims), tag=113, signed=True).ravel()
+    # variables whose ghost layer is NOT the one their BC object generates, with clean flags: built from an array that
+    # includes the ghost cells, and returned by solveMatrixPDE (both documented ways of obtaining a variable)
+    w.phig = pf.CellVariable(m, U.generic_array(tuple(k + 2 for k in dims), tag=115, signed=True))
+    assert not (w.phig.BCs.modified or w.phig.value.modified)
+    w.phim = pf.solveMatrixPDE(m, w.Mfull, w.rfull)
     return w
 
 
@@ -104,6 +109,11 @@ MENU = {
     "solvePDE_prebuilt": lambda w: pf.solvePDE(w.sol, [w.M, w.v]),
     "solveMatrixPDE": lambda w: pf.solveMatrixPDE(w.mesh, w.Mfull, w.rfull),
     "solveExplicitPDE": lambda w: pf.solveExplicitPDE(w.phi, 0.125, w.rhs_expl),
+    "solveExplicitPDE_ghosts": lambda w: pf.solveExplicitPDE(w.phig, 0.125, w.rhs_expl),
+    "solveExplicitPDE_matrixresult": lambda w: pf.solveExplicitPDE(w.phim, 0.125, w.rhs_expl),
+    "gradientTerm_ghosts": lambda w: (pf.gradientTerm(w.phig), pf.linearMean(w.phim), pf.upwindMean(w.phig, w.u)),
+    "transientTerm_ghosts": lambda w: pf.transientTerm(w.phig, 0.25, w.phim),
+    "copy_ghosts": lambda w: (w.phig.copy(), w.phim.copy(), w.phig + w.phim),
     "copy": lambda w: w.phi.copy(),
     "domainIntegral": lambda w: w.phi.domainIntegral(),
     "plotprofile": lambda w: w.phi.plotprofile(),
@@ -117,11 +127,13 @@ MENU = {
 }
 MAY_CHANGE = {"solvePDE": ("sol",), "solvePDE_prebuilt": ("sol",)}
 DELIBERATE_SHARING = {"CellVariable": ("bc", "phi.BCs"), "CellVariable_ghosts": (), "solveExplicitPDE": ("bc", "phi.BCs"),
+                      "solveExplicitPDE_ghosts": ("phig.BCs",), "solveExplicitPDE_matrixresult": ("phim.BCs",),
                       "solvePDE": ("sol",), "solvePDE_prebuilt": ("sol",)}
 PURE = [n for n in ("diffusionTerm", "convectionTerm", "convectionUpwindTerm", "convectionUpwindTerm_dir",
                     "convectionTVDupwindRHSTerm", "linearSourceTerm", "constantSourceTerm", "transientTerm", "transientTerm_alpha",
                     "gradientTerm", "gradientTermFixedBC", "divergenceTerm", "linearMean", "arithmeticMean", "geometricMean",
                     "harmonicMean", "upwindMean", "boundaryConditionsTerm", "cellLocations", "faceLocations", "copy",
+                    "gradientTerm_ghosts", "transientTerm_ghosts", "copy_ghosts",
                     "arith", "celleval", "faceeval")]
 
 
@@ -148,7 +160,7 @@ def arrays_of(obj, prefix, out, depth=0):
 
 def world_arrays(w, skip=()):
     out = []
-    for name in ("mesh", "D", "u", "u2", "bc", "phi", "sol", "beta", "M", "v", "Mfull", "rfull", "rhs_expl"):
+    for name in ("mesh", "D", "u", "u2", "bc", "phi", "sol", "beta", "M", "v", "Mfull", "rfull", "rhs_expl", "phig", "phim"):
         if name in skip:
             continue
         arrays_of(getattr(w, name), name, out)
@@ -158,7 +170,7 @@ def world_arrays(w, skip=()):
 def flags_of(w):
     """Non-array state: dirty bits and periodic flags."""
     out = []
-    for name in ("phi", "sol", "beta"):
+    for name in ("phi", "sol", "beta", "phig", "phim"):
         v = getattr(w, name)
         out.append((name, bool(v._value.modified), bool(v.BCs.modified),
                     tuple(bool(getattr(v.BCs, s).periodic) for s in ("left", "right", "bottom", "top", "back", "front")),
